@@ -52,7 +52,11 @@ def run(prop, tier, cfg):
             cmd = ['cargo', 'kani', '--no-default-features', '--harness', h['name']] + h.get('args', [])
             t1 = time.time()
             try:
-                p = subprocess.run(cmd, cwd=scratch, env=env, capture_output=True, text=True, timeout=h.get('timeout', 900))
+                import fcntl
+                os.makedirs(env['CARGO_TARGET_DIR'], exist_ok=True)
+                with open(os.path.join(env['CARGO_TARGET_DIR'], '.vp.lock'), 'w') as lk:
+                    fcntl.flock(lk, fcntl.LOCK_EX)   # one build at a time in the shared target directory
+                    p = subprocess.run(cmd, cwd=scratch, env=env, capture_output=True, text=True, timeout=h.get('timeout', 900))
                 txt = p.stdout + p.stderr
             except subprocess.TimeoutExpired:
                 out['undecided'].append('kani harness %s timed out' % h['name'])
